@@ -366,6 +366,15 @@ func (ts *Terms) Bin(op Op, a, b *Term) *Term {
 		if a == b {
 			return ts.BV(0, w)
 		}
+		// x - (x / k) * k  =>  x % k  (both for the unsigned and the truncating signed division)
+		if b.Op == OpMul && b.Args[1].IsConst() && b.Args[1].C != 0 {
+			if d := b.Args[0]; (d.Op == OpUDiv || d.Op == OpSDiv) && d.Args[0] == a && d.Args[1].IsConst() && d.Args[1].C == b.Args[1].C {
+				if d.Op == OpUDiv {
+					return ts.Bin(OpURem, a, d.Args[1])
+				}
+				return ts.Bin(OpSRem, a, d.Args[1])
+			}
+		}
 	case OpMul:
 		if a.IsConst() && a.C == 1 {
 			return b
@@ -399,6 +408,12 @@ func (ts *Terms) Bin(op Op, a, b *Term) *Term {
 	case OpUDiv:
 		if b.IsConst() && b.C == 1 {
 			return a
+		}
+	}
+	// x + (-x) => 0
+	if op == OpAdd {
+		if (b.Op == OpNeg && b.Args[0] == a) || (a.Op == OpNeg && a.Args[0] == b) {
+			return ts.BV(0, w)
 		}
 	}
 	// (x + c1) + c2 => x + (c1+c2)
